@@ -506,7 +506,22 @@ func c08Gen(t *rapid.T) c08Case {
 	case 2:
 		sn, _, _ := dm.Resolve(root, data, c.Target)
 		if !(sn.Kind == "list" && len(c.Target) > 0 && c.Target[len(c.Target)-1].Key == nil) {
-			c.Leaf, c.Mode, c.StartLen, c.DotDot = rapid.SampledFrom([]string{"nothere", "zz9", "x:y", "gm:nothere"}).Draw(t, "unknown"), "unknown-name", 0, nil
+			names := []string{"nothere", "zz9", "x:y", "gm:nothere"}
+			// names that exist in the schema but are no data nodes here: choices and cases, a child under the name of
+			// another module, a child's name with an encoded slash in it
+			for _, ch := range sn.Choices() {
+				names = append(names, ch.Name)
+				for _, cs := range ch.Children {
+					if cs.Kind == "case" && sn.Child(cs.Name) == nil {
+						names = append(names, cs.Name)
+					}
+				}
+			}
+			for _, d := range sn.DataChildren() {
+				names = append(names, "zz:"+d.Name, d.Name+"%2F"+d.Name)
+			}
+			c.Leaf, c.Mode, c.StartLen, c.DotDot = rapid.SampledFrom(names).Draw(t, "unknown"), "unknown-name", 0, nil
+			c.Qualify = false
 		}
 	}
 	return c
